@@ -376,6 +376,27 @@ func genC08(repo string) (string, error) {
 	}
 	fmt.Fprintf(&o.sb, "Definition helper_calls : list (string * list string) := (* create_operator.go: builder API calls per helper, source order *)\n  %s.\n",
 		"["+strings.Join(rows, ";\n   ")+"]")
+	// who may build on a region that is in a joint state: every function of non-test code under server/ that names the
+	// option SkipOriginJointStateCheck (a new admin / recovery entry point that passes it gets the planner an origin it
+	// was not written for), and every helper of create_operator.go that lets its caller pass builder options
+	sk, err := goast.LiteralSites(repo, []string{"server"}, "", "SkipOriginJointStateCheck")
+	if err != nil {
+		return "", err
+	}
+	o.strList("skip_joint_check_sites", sk, "server/**: functions that name SkipOriginJointStateCheck")
+	var optHelpers []string
+	for _, d := range cf.AST.Decls {
+		fd, ok := d.(*ast.FuncDecl)
+		if !ok || fd.Recv != nil || fd.Type.Params == nil {
+			continue
+		}
+		for _, prm := range fd.Type.Params.List {
+			if strings.Contains(cf.Src(prm.Type), "BuilderOption") {
+				optHelpers = append(optHelpers, fd.Name.Name)
+			}
+		}
+	}
+	o.strList("helpers_taking_builder_options", optHelpers, "create_operator.go: functions with a BuilderOption parameter")
 	return o.sb.String(), nil
 }
 
